@@ -234,7 +234,9 @@ class Interp(object):
             return f(*args, **kwargs)
         except INTERNAL:
             raise
-        except Exception as e:  # the program's own exception, raised by native code
+        except (KeyboardInterrupt, SystemExit):
+            raise
+        except BaseException as e:  # the program's own exception, raised by native code
             if not model_call and (_mentions_symbolic(e) or any(is_symbolic(a) for a in args)):
                 raise Unsupported('native call %s failed on symbolic arguments: %r' % (qualname_of(f), e))
             raise PyRaise(e)
@@ -398,12 +400,12 @@ class Interp(object):
         # objects: __bool__ / __len__ protocol
         tp = type(v)
         b = _mro_lookup(tp, '__bool__')
-        if b is not None:
+        if b is not _MISSING and b is not None:
             if isinstance(b, types.FunctionType) and in_repo_scope(b.__module__):
                 return self.truth(self.call_function(b, [v], {}))
             return self.truth(self.native(b, [v], {}))
         ln = _mro_lookup(tp, '__len__')
-        if ln is not None:
+        if ln is not _MISSING and ln is not None:
             if isinstance(ln, types.FunctionType) and in_repo_scope(ln.__module__):
                 return self.truth(self.call_function(ln, [v], {}) != 0)
             return self.truth(self.native(ln, [v], {}) != 0)
